@@ -52,6 +52,8 @@ type c11Cfg struct {
 	Domains []string    // configured cookie domains
 	Rewritten [][2]string // (browser host, Host header seen by the proxy): front proxy that rewrites Host, no --reverse-proxy
 	Fronted bool
+	ReverseProxy bool     // --reverse-proxy=true: the front proxy passes the public host in X-Forwarded-Host
+	p2      *vfProxy      // Redis store: a second instance (replica) with the same flags sharing the same Redis
 	p       *vfProxy
 }
 
@@ -91,7 +93,10 @@ func c11Configs(run *vfRun, w *vfWorld) []*c11Cfg {
 	}
 	for _, store := range []string{"cookie", "redis"} {
 		for _, name := range names[store] {
-			for _, dom := range []string{"none", "parent", "parent-dot", "two"} {
+			for _, dom := range []string{"none", "parent", "parent-dot", "two", "two-rp"} {
+				if dom == "two-rp" && !(name == "_oauth2_proxy" || (name == "my+cookie" && run.Env.Thorough()) || (len(name) == 256 && (store == "cookie" || run.Env.Thorough()))) {
+					continue
+				}
 				if dom == "parent-dot" && !(run.Env.Thorough() && (name == "_oauth2_proxy" || len(name) == 256)) {
 					continue
 				}
@@ -122,6 +127,15 @@ func c11Configs(run *vfRun, w *vfWorld) []*c11Cfg {
 						c.Rewritten = [][2]string{{"app.example.test", "internal-svc:4180"}, {"other.example.test", "192.0.2.7"}, {"app.example.test:8443", "localhost:4180"}, {"example.test", "svc.cluster.local"}}
 						c.Hosts = [][2]string{{"other.example.test", "proxy.example.test"}, {"proxy.example.test", "proxy.example.test"}, {"other.example.test", "b.example.test"},
 							{"deep.proxy.example.test", "proxy.example.test:8443"}, {"example.test", "a.proxy.example.test"}, {"other.example.test:8443", "other.example.test:8443"}}
+					case "two-rp":
+						// reverse-proxy mode behind a front proxy: Host is internal, the public host travels in X-Forwarded-Host; the
+						// domain rule applies to the public host, and the matching domain is NOT always the fallback one
+						c.Flags = append(c.Flags, "--cookie-domain=proxy.example.test", "--cookie-domain=example.test", "--reverse-proxy=true")
+						c.Domains = []string{"proxy.example.test", "example.test"}
+						c.ReverseProxy = true
+						c.Rewritten = [][2]string{{"app.proxy.example.test", "internal-svc:4180"}, {"proxy.example.test:8443", "10.1.2.3:4180"}, {"other.example.test", "localhost"},
+							{"deep.app.proxy.example.test", "svc.cluster.local:4180"}, {"proxy.example.test", "[::1]:4180"}}
+						c.Hosts = [][2]string{{"proxy.example.test", "proxy.example.test"}, {"other.example.test", "other.example.test"}, {"a.proxy.example.test:8443", "a.proxy.example.test:8443"}}
 					case "parent-dot":
 						c.Flags = append(c.Flags, "--cookie-domain=.example.test")
 						c.Hosts = [][2]string{{"proxy.example.test", "proxy.example.test"}, {"a.example.test", "b.a.example.test:8443"}}
@@ -146,7 +160,14 @@ type c11Table struct {
 	mu     sync.Mutex
 	pads   map[string][]int
 	issued map[string]int
+	stall  map[string]*c11Stall // subject -> the refresh grant for it is held inside the provider until released
 	stream string
+}
+
+type c11Stall struct {
+	entered chan struct{} // closed when the provider has the refresh request in hand
+	release chan struct{}
+	once    sync.Once
 }
 
 func c11NewTable(w *vfWorld, seed int64) *c11Table {
@@ -156,10 +177,20 @@ func c11NewTable(w *vfWorld, seed int64) *c11Table {
 	for i := range b {
 		b[i] = al[rng.Intn(64)]
 	}
-	tab := &c11Table{pads: map[string][]int{}, issued: map[string]int{}, stream: string(b)}
+	tab := &c11Table{pads: map[string][]int{}, issued: map[string]int{}, stall: map[string]*c11Stall{}, stream: string(b)}
 	w.IdP.Set(func(c *vfIdPCfg) {
 		c.MutateIDClaims = func(grant string, ar *vfAuthReq, claims map[string]interface{}) {
 			sub, _ := claims["sub"].(string)
+			tab.mu.Lock()
+			st := tab.stall[sub]
+			tab.mu.Unlock()
+			if st != nil && grant == "refresh" {
+				st.once.Do(func() { close(st.entered) })
+				select {
+				case <-st.release:
+				case <-time.After(4 * time.Second):
+				}
+			}
 			tab.mu.Lock()
 			defer tab.mu.Unlock()
 			pads, ok := tab.pads[sub]
@@ -197,6 +228,9 @@ type c11Hist struct {
 	// host_sign_out, which is what its cookie jar goes by). Empty = the proxy sees the browser's host.
 	ProxyHost string `json:"host_header_seen_by_proxy,omitempty"`
 	Fault     string `json:"redis_del_fault,omitempty"`
+	// Replica (Redis store): a second instance sharing the same Redis serves one request right before the sign-out (which goes to
+	// the first instance); the replays after the sign-out go to the second instance first, immediately.
+	Replica bool `json:"second_instance_serves_before_and_after_sign_out,omitempty"`
 	// Users: one entry per consecutive login in the SAME browser without a sign-out in between (user index); the last login is the
 	// one the requests / refreshes / sign-out belong to. Empty = one login. EarlierPads: ID-token pad of each earlier login.
 	Users       []int `json:"logins_as_user,omitempty"`
@@ -264,10 +298,11 @@ func c11Histories(run *vfRun, cfg *c11Cfg, ci int) []c11Hist {
 		h.Rd = []string{"", "/after?x=1", "https://evil.example/", "/"}[(n/2)%4]
 		hp := cfg.Hosts[n%len(cfg.Hosts)]
 		h.HostLogin, h.HostOut = hp[0], hp[1]
-		if len(cfg.Rewritten) > 0 && n%4 == 3 {
-			rw := cfg.Rewritten[(n/4)%len(cfg.Rewritten)]
+		if len(cfg.Rewritten) > 0 && (n%4 == 3 || (cfg.ReverseProxy && n%4 != 0)) {
+			rw := cfg.Rewritten[(n/4+n%4)%len(cfg.Rewritten)]
 			h.HostLogin, h.HostOut, h.ProxyHost = rw[0], rw[0], rw[1]
 		}
+		h.Replica = n%2 == 0
 		n++
 		out = append(out, h)
 	}
@@ -306,7 +341,7 @@ func c11Histories(run *vfRun, cfg *c11Cfg, ci int) []c11Hist {
 		}
 	}
 	users = nil
-	for k := 0; k < run.Env.Pick(12, 160); k++ {
+	for k := 0; k < run.Env.Pick(6, 160); k++ {
 		if k%5 == 4 {
 			users = [][]int{{0, 1}, {0, 1, 2}, {0, 0}, {1, 0, 1}}[rng.Intn(4)]
 		} else {
@@ -475,10 +510,25 @@ func (r *c11Runner) one(cfg *c11Cfg, h c11Hist) {
 		}
 		return host
 	}
+	// fwd: reverse-proxy deployment — the front proxy rewrites Host and hands the public host over in X-Forwarded-Host
+	fwd := cfg.ReverseProxy && h.ProxyHost != ""
+	front := func(rr *vfReq, publicHost string) *vfReq {
+		rr.Host = wire(publicHost)
+		if fwd {
+			rr.Headers = append(rr.Headers, [2]string{"X-Forwarded-Host", publicHost}, [2]string{"X-Forwarded-Proto", "http"}, [2]string{"X-Forwarded-For", "198.51.100.23"})
+		}
+		return rr
+	}
+	// ruleHost: the host the documented cookie-domain rule applies to
+	ruleHost := func(host string) string {
+		if fwd {
+			return host
+		}
+		return wire(host)
+	}
 	// the browser: cookies by its own URL host (b.Host), Host header possibly rewritten on the way to the proxy
 	browserSend := func(req *vfReq) *vfResp {
-		rr := req.Clone()
-		rr.Host = wire(b.Host)
+		rr := front(req.Clone(), b.Host)
 		if cs := b.Jar.For(b.Host, rr.Target, false); len(cs) > 0 {
 			rr.Headers = append(rr.Headers, [2]string{"Cookie", vfCookieHeader(cs)})
 		}
@@ -549,6 +599,11 @@ func (r *c11Runner) one(cfg *c11Cfg, h c11Hist) {
 	age := func(host string) bool {
 		req := httptest.NewRequest("GET", cfg.Prefix+"/userinfo", nil)
 		req.Host = wire(host)
+		if fwd {
+			// SaveSession / LoadCookiedSession are called outside the middleware chain, where no request scope (reverse-proxy flag)
+			// exists and X-Forwarded-Host is not consulted: give the store the host the chain would have derived
+			req.Host = host
+		}
 		req.Header.Set("Cookie", vfCookieHeader(b.Jar.For(host, cfg.Prefix+"/userinfo", false)))
 		s, err := p.P.LoadCookiedSession(req)
 		if err != nil || s == nil {
@@ -592,6 +647,39 @@ func (r *c11Runner) one(cfg *c11Cfg, h c11Hist) {
 	}
 	// --- sign-out
 	b.Host = h.HostOut
+	authedOn := func(px *vfProxy, cs []*vfCookie, both bool) (bool, string) {
+		if len(cs) == 0 {
+			return false, ""
+		}
+		hdr := vfCookieHeader(cs)
+		ui := px.Do(front(vfGET(cfg.Prefix+"/userinfo", "Cookie", hdr), h.HostOut))
+		run.Count("replay_requests", 1)
+		if ui.Code == 200 {
+			return true, fmt.Sprintf("userinfo %d %s", ui.Code, vfTrunc(strings.TrimSpace(string(ui.Body)), 80))
+		}
+		if !both {
+			return false, ""
+		}
+		id := fmt.Sprintf("%s-replay-%d", sub, atomic.AddInt64(&c11Seq, 1))
+		pr := px.Do(front(vfGET(cfg.Base+"replay", "Cookie", hdr, "X-Vf-Id", id), h.HostOut))
+		run.Count("replay_requests", 1)
+		hit := len(r.w.Up.FindHit(id)) > 0
+		if hit || pr.Code == 200 {
+			return true, fmt.Sprintf("userinfo %d, protected path %d upstream-hit=%v", ui.Code, pr.Code, hit)
+		}
+		return false, ""
+	}
+	authedFn := func(cs []*vfCookie, both bool) (bool, string) { return authedOn(p, cs, both) }
+	replica := cfg.p2 != nil && h.Replica && h.Fault == ""
+	if replica {
+		// another instance sharing the store serves this browser right before the sign-out
+		warm := cfg.p2.Do(front(vfGET(cfg.Prefix+"/userinfo", "Cookie", vfCookieHeader(b.Jar.For(h.HostOut, cfg.Prefix+"/userinfo", false))), h.HostOut))
+		if warm.Code != 200 {
+			run.Inconclusive(fmt.Sprintf("second instance answered %d before the sign-out", warm.Code))
+			return
+		}
+		trace = append(trace, "second instance served /userinfo: 200")
+	}
 	if refreshAt[h.K] && !age(h.HostOut) {
 		return
 	}
@@ -645,6 +733,14 @@ func (r *c11Runner) one(cfg *c11Cfg, h c11Hist) {
 	issuedBefore := r.tab.Issued(sub)
 	n0 := len(b.Jar.Archive)
 	so := send(req)
+	// the sign-out response has been received: from here on nothing the browser ever held may authenticate on ANY instance
+	replicaStale := ""
+	if replica && so.Code == 302 {
+		if ok, what := authedOn(cfg.p2, presented, false); ok {
+			replicaStale = what
+		}
+		run.Count("immediate_replays_on_second_instance", 1)
+	}
 	refreshedAtSignOut := r.tab.Issued(sub) > issuedBefore
 	setBySignOut := c11SessionIn(b.Jar.Archive[n0:])
 	trace = append(trace, fmt.Sprintf("%s %s at %s (proxy sees Host %s) presenting %d session cookie(s) -> %d, %d Set-Cookie line(s), refreshed=%v", h.Method, target, h.HostOut, wire(h.HostOut), len(presented), so.Code, len(so.SetCookies()), refreshedAtSignOut))
@@ -657,15 +753,20 @@ func (r *c11Runner) one(cfg *c11Cfg, h c11Hist) {
 	dc := cfg.Domain + "," + cfg.Path
 	if h.HostLogin != h.HostOut {
 		dc += ",cross-host"
-		if len(cfg.Domains) >= 2 && c11RefDomain(cfg.Domains, wire(h.HostLogin)) != c11RefDomain(cfg.Domains, wire(h.HostOut)) {
+		if len(cfg.Domains) >= 2 && c11RefDomain(cfg.Domains, ruleHost(h.HostLogin)) != c11RefDomain(cfg.Domains, ruleHost(h.HostOut)) {
 			dc += ",other-domain-selected"
 		}
 	}
-	if h.ProxyHost != "" {
+	if h.ProxyHost != "" && fwd {
+		dc += ",x-forwarded-host->" + c11RefDomain(cfg.Domains, h.HostOut)
+	} else if h.ProxyHost != "" {
 		dc += ",host-rewritten"
 		if len(cfg.Domains) > 0 {
 			dc += "-matching-no-domain"
 		}
+	}
+	if cfg.ReverseProxy {
+		dc += ",reverse-proxy"
 	}
 	cell := fmt.Sprintf("%s|parts=%d|refresh=%s|%s|%s|name=%s", cfg.Store, len(presented), h.refreshClass(), dc, h.Method, c11NameClass(cfg.Name))
 	if h.Fault != "" {
@@ -673,6 +774,9 @@ func (r *c11Runner) one(cfg *c11Cfg, h c11Hist) {
 	}
 	if len(h.Users) > 1 {
 		cell += "|logins=" + h.loginClass()
+	}
+	if cfg.p2 != nil && h.Replica && h.Fault == "" {
+		cell += "|two-instances"
 	}
 	run.Eval(cell)
 	run.Count("histories", 1)
@@ -715,28 +819,6 @@ func (r *c11Runner) one(cfg *c11Cfg, h c11Hist) {
 		return
 	}
 
-	authedFn := func(cs []*vfCookie, both bool) (bool, string) {
-		if len(cs) == 0 {
-			return false, ""
-		}
-		hdr := vfCookieHeader(cs)
-		ui := p.Do(vfGET(cfg.Prefix+"/userinfo", "Cookie", hdr).WithHost(wire(h.HostOut)))
-		run.Count("replay_requests", 1)
-		if ui.Code == 200 {
-			return true, fmt.Sprintf("userinfo %d %s", ui.Code, vfTrunc(strings.TrimSpace(string(ui.Body)), 80))
-		}
-		if !both {
-			return false, ""
-		}
-		id := fmt.Sprintf("%s-replay-%d", sub, atomic.AddInt64(&c11Seq, 1))
-		pr := p.Do(vfGET(cfg.Base+"replay", "Cookie", hdr, "X-Vf-Id", id).WithHost(wire(h.HostOut)))
-		run.Count("replay_requests", 1)
-		hit := len(r.w.Up.FindHit(id)) > 0
-		if hit || pr.Code == 200 {
-			return true, fmt.Sprintf("userinfo %d, protected path %d upstream-hit=%v", ui.Code, pr.Code, hit)
-		}
-		return false, ""
-	}
 	authed := authedFn
 	explained := false
 	// --- R1: every presented session cookie must be gone from the jar
@@ -760,7 +842,7 @@ func (r *c11Runner) one(cfg *c11Cfg, h c11Hist) {
 		}
 		if len(survivors) > 0 {
 			sig := "c11:presented-session-cookie-survives-sign-out"
-			if d1, d2 := c11RefDomain(cfg.Domains, wire(h.HostLogin)), c11RefDomain(cfg.Domains, wire(h.HostOut)); len(cfg.Domains) >= 2 && h.HostLogin != h.HostOut && d1 != d2 {
+			if d1, d2 := c11RefDomain(cfg.Domains, ruleHost(h.HostLogin)), c11RefDomain(cfg.Domains, ruleHost(h.HostOut)); len(cfg.Domains) >= 2 && h.HostLogin != h.HostOut && d1 != d2 {
 				// known finding, kept tight: several cookie domains, the cookies were set while addressing a host for which the
 				// domain rule selects d1, sign-out addressed a host for which it selects d2 != d1, and every survivor carries d1
 				all := true
@@ -808,6 +890,10 @@ func (r *c11Runner) one(cfg *c11Cfg, h c11Hist) {
 			r.accountFor(k) // already reported above
 		}
 	}
+	if replicaStale != "" {
+		run.Violation("c11:other-instance-authenticates-after-sign-out", fmt.Sprintf("[%s] right after the 302 sign-out (served by instance A) the cookies the browser had presented are still authenticated by instance B, which shares the same Redis (%s)", cfg.Label, replicaStale),
+			detail(map[string]interface{}{"replayed": c11Describe(presented), "note": "instance B = second proxy process with identical flags and the same --redis-connection-url; it served one /userinfo request of this browser right before the sign-out"}))
+	}
 	final := b.Jar.For(h.HostOut, cfg.Base+"replay", false)
 	if ok, what := authed(final, true); ok && !explained {
 		run.Violation("c11:browser-still-authenticated-after-sign-out", fmt.Sprintf("[%s] after the 302 sign-out the browser's own next request is authenticated (%s) with jar %v", cfg.Label, what, c11Describe(final)),
@@ -827,6 +913,11 @@ func (r *c11Runner) one(cfg *c11Cfg, h c11Hist) {
 	}
 	for _, x := range replays {
 		ok, what := authed(x.cs, x.both)
+		if !ok && replica && replicaStale == "" {
+			if ok, what = authedOn(cfg.p2, x.cs, false); ok {
+				what += " — on the second instance"
+			}
+		}
 		if !ok {
 			continue
 		}
@@ -838,6 +929,166 @@ func (r *c11Runner) one(cfg *c11Cfg, h c11Hist) {
 		run.Count("cookie_store_archive_replays_still_valid(not_a_violation)", 1)
 	}
 	run.SampleEvery(211, func() interface{} { return map[string]interface{}{"config": cfg.Label, "history": h, "trace": trace} })
+}
+
+// race: Redis store, real concurrency. The session is stale; request R starts refreshing it and is held inside the provider's token
+// endpoint; the sign-out is fired while R is in there; then R is let go. After both have been answered, a sign-out that answered 302
+// must have ended the session: no ticket key of this browser in Redis, and no cookie the browser ever received — including what R's
+// response set — authenticates on any instance. (The order in which the two responses reach the browser is arbitrary, so the jar
+// itself is not judged here.)
+func (r *c11Runner) race(cfg *c11Cfg, i int) {
+	run, p := r.run, cfg.p
+	no := atomic.AddInt64(&c11Seq, 1)
+	sub := fmt.Sprintf("c11-race-%d", no)
+	host := cfg.Hosts[i%len(cfg.Hosts)][0]
+	pSO, soVia := p, "the same instance"
+	if cfg.p2 != nil && i%2 == 1 {
+		pSO, soVia = cfg.p2, "a second instance sharing the Redis"
+	}
+	pads := []int{c11PadClasses[i%4], c11PadClasses[(i+1)%4]}
+	st := &c11Stall{entered: make(chan struct{}), release: make(chan struct{})}
+	r.tab.mu.Lock()
+	r.tab.pads[sub] = pads
+	r.tab.mu.Unlock()
+	b := vfNewBrowser(host)
+	signedOut := false
+	defer func() {
+		r.tab.mu.Lock()
+		delete(r.tab.stall, sub)
+		r.tab.mu.Unlock()
+		if signedOut {
+			return
+		}
+		for _, c := range b.Jar.Archive {
+			if k := c11TicketKey(c.Value); k != "" && c11IsSession(c) {
+				r.accountFor(k)
+			}
+		}
+	}()
+	var trace []string
+	start := b.Get(p, cfg.Prefix+"/start?rd="+vfQueryEscape(cfg.Base))
+	if start.Code != 302 {
+		run.Inconclusive(fmt.Sprintf("login start answered %d", start.Code))
+		return
+	}
+	code, ar, err := r.w.IdP.Authorize(start.Location(), vfIdentity{Sub: sub, Email: "x@example.com", Groups: []string{"g"}, PreferredUsername: "pu-" + sub})
+	if err != nil {
+		run.Inconclusive("login start failed")
+		return
+	}
+	if cb := b.Get(p, cfg.Prefix+"/callback?code="+vfQueryEscape(code)+"&state="+vfQueryEscape(ar.Params.Get("state"))); cb.Code != 302 {
+		run.Inconclusive(fmt.Sprintf("login callback answered %d", cb.Code))
+		return
+	}
+	// age the session through the store's own load + save
+	cookies := func(path string) string { return vfCookieHeader(b.Jar.For(host, path, false)) }
+	req := httptest.NewRequest("GET", cfg.Prefix+"/userinfo", nil)
+	req.Host = host
+	req.Header.Set("Cookie", cookies(cfg.Prefix+"/userinfo"))
+	sess, err := p.P.LoadCookiedSession(req)
+	if err != nil || sess == nil {
+		run.Inconclusive("ageing: session does not load")
+		return
+	}
+	old := time.Now().Add(-10 * time.Minute)
+	sess.CreatedAt = &old
+	rw := httptest.NewRecorder()
+	if err := p.P.SaveSession(rw, req, sess); err != nil {
+		run.Inconclusive("ageing: save failed")
+		return
+	}
+	b.Jar.Apply(host, cfg.Prefix+"/userinfo", rw.Header().Values("Set-Cookie"))
+	r.tab.mu.Lock()
+	r.tab.stall[sub] = st
+	r.tab.mu.Unlock()
+
+	type done struct {
+		resp *vfResp
+		at   time.Time
+	}
+	rDone, soDone := make(chan done, 1), make(chan done, 1)
+	rReq := vfGET(cfg.Base+"probe?race=1", "Cookie", cookies(cfg.Base+"probe"), "X-Vf-Id", sub+"-R").WithHost(host)
+	soReq := vfGET(cfg.Prefix+"/sign_out", "Cookie", cookies(cfg.Prefix+"/sign_out")).WithHost(host)
+	go func() { rDone <- done{p.Do(rReq), time.Now()} }()
+	var entered time.Time
+	select {
+	case <-st.entered:
+		entered = time.Now()
+	case <-time.After(4 * time.Second):
+		close(st.release)
+		<-rDone
+		run.Inconclusive("race: the refresh never reached the provider")
+		return
+	}
+	go func() { soDone <- done{pSO.Do(soReq), time.Now()} }()
+	// give the sign-out time to either finish or queue up behind the refresh, then let the refresh go
+	var so, rr done
+	soFirst := false
+	select {
+	case so = <-soDone:
+		soFirst = true
+	case <-time.After(150 * time.Millisecond):
+	}
+	close(st.release)
+	rr = <-rDone
+	if !soFirst {
+		so = <-soDone
+	}
+	run.Count("races", 1)
+	if soFirst {
+		run.Count("races_sign_out_answered_while_refresh_in_flight", 1)
+	} else {
+		run.Count("races_sign_out_waited_for_the_refresh", 1)
+	}
+	trace = append(trace, fmt.Sprintf("R (refreshing, held in the provider) -> %d, %d Set-Cookie; sign-out via %s fired %.0f ms after the provider got the refresh -> %d (answered before R finished: %v)",
+		rr.resp.Code, len(rr.resp.SetCookies()), soVia, float64(time.Since(entered).Milliseconds()), so.resp.Code, soFirst))
+	// the browser receives both responses
+	b.Jar.Apply(host, cfg.Base+"probe", rr.resp.SetCookies())
+	b.Jar.Apply(host, cfg.Prefix+"/sign_out", so.resp.SetCookies())
+	cell := fmt.Sprintf("race|%s|sign-out-via=%v|answered-first=%v|%s,%s|name=%s", cfg.Store, pSO != p, soFirst, cfg.Domain, cfg.Path, c11NameClass(cfg.Name))
+	if rr.at.Sub(entered) > 1500*time.Millisecond {
+		// the refresh lock lives 2 s: beyond that a second refresh is legitimate and the history is another one
+		run.Inconclusive("race: the held refresh took longer than the lock's lifetime allows")
+		return
+	}
+	run.Eval(cell)
+	if so.resp.Code != 302 {
+		run.Count(fmt.Sprintf("race_sign_out_status_%d", so.resp.Code), 1)
+		return // answered with an error: the property demands nothing
+	}
+	signedOut = true
+	detail := map[string]interface{}{"config": cfg.Label, "flags": p.Flags, "trace": trace, "subject": sub, "host": host,
+		"how_to_replay": "Redis store, --cookie-refresh=1m: login; move the session's CreatedAt 10 minutes back; hold the provider's refresh grant; send GET <base>probe (starts the refresh); while the provider holds it send GET <prefix>/sign_out; release the provider; after both responses replay every cookie the browser ever received"}
+	keyLeft := ""
+	for _, c := range b.Jar.Archive {
+		if k := c11TicketKey(c.Value); k != "" && c11IsSession(c) && r.w.Redis().Exists(k) {
+			keyLeft = k
+			r.accountFor(k)
+		}
+	}
+	auth := ""
+	for _, c := range b.Jar.Archive {
+		if !c11IsSession(c) {
+			continue
+		}
+		for _, px := range []*vfProxy{p, cfg.p2} {
+			if px == nil {
+				continue
+			}
+			ui := px.Do(vfGET(cfg.Prefix+"/userinfo", "Cookie", c.Name+"="+c.Value).WithHost(host))
+			run.Count("replay_requests", 1)
+			if ui.Code == 200 {
+				auth = fmt.Sprintf("cookie #%d of the archive: userinfo 200 %s", c.Seq, vfTrunc(strings.TrimSpace(string(ui.Body)), 80))
+			}
+		}
+	}
+	if keyLeft != "" || auth != "" {
+		detail["redis_key_still_present"] = keyLeft
+		detail["replay"] = auth
+		run.Violation("c11:session-survives-sign-out-racing-a-refresh", fmt.Sprintf("[%s] sign-out (via %s) answered 302 while another request of the same browser was refreshing the session; after both were answered the session is back: key present=%v, %s",
+			cfg.Label, soVia, keyLeft != "", auth), detail)
+	}
+	run.SampleEvery(97, func() interface{} { return map[string]interface{}{"config": cfg.Label, "race": trace} })
 }
 
 func c11SessionIn(cs []*vfCookie) []*vfCookie {
@@ -868,7 +1119,7 @@ func c11Lines(lines []string) []string {
 func TestVerif_C11(t *testing.T) {
 	run := vfNewRun(t, "C11", "exploration")
 	run.SetRule("histories login -> k in 0..3 authenticated requests (with refreshes that grow / shrink the ID token, also on the sign-out request itself) -> sign-out (GET / POST, rd none / relative / foreign) -> " +
-		"replay of every archived cookie alone, of each generation together and of the final jar on <prefix>/userinfo and a protected path; also 2-3 consecutive logins in one browser (different users / same user) before the sign-out, after which the cookies of EVERY earlier login must be dead and no key of the run may remain in Redis; " +
+		"replay of every archived cookie alone, of each generation together and of the final jar on <prefix>/userinfo and a protected path; reverse-proxy deployments (Host internal, public host in X-Forwarded-Host, two cookie domains); Redis store with TWO instances sharing the store (one request on the second instance right before the sign-out, immediate replay there right after it); a sign-out fired while another request of the browser is held inside the provider refreshing the session (real concurrency); also 2-3 consecutive logins in one browser (different users / same user) before the sign-out, after which the cookies of EVERY earlier login must be dead and no key of the run may remain in Redis; " +
 		"stores cookie and Redis; cookie-domain none / parent / two domains (login and sign-out hosts exact, sub-domain, with port, different hosts under the parent, hosts for which different configured domains are selected, and a Host-rewriting front proxy: the browser addresses app.example.test while the proxy sees internal-svc:4180 / an IP literal / localhost, matching none of the configured domains); cookie-path / and /app/; " +
 		"cookie names default, 255, 256 characters and regexp metacharacters; sessions of 1..4+ cookies; Redis DEL failing through the RESP front (error before effect, dropped connection, nil reply, effect then error / drop). " +
 		"cell = (store, session cookies presented at sign-out, refresh in history, domain/path configuration, method, name class[, fault]); non-trivial = every history (each ends in a judged sign-out)")
@@ -927,12 +1178,18 @@ func TestVerif_C11(t *testing.T) {
 			t.Fatalf("[%s] %v", c.Label, err)
 		}
 		c.p = p
+		if c.Store == "redis" && !c.Fronted && (run.Env.Thorough() || c.Name == "_oauth2_proxy" || c.Domain == "two-rp") {
+			if c.p2, err = w.NewProxy(c.Flags...); err != nil {
+				t.Fatalf("[%s] second instance: %v", c.Label, err)
+			}
+		}
 	}
 	run.Extra("configurations", len(cfgs))
 
 	type job struct {
-		cfg *c11Cfg
-		h   c11Hist
+		cfg  *c11Cfg
+		h    c11Hist
+		race int // > 0: the sign-out-races-a-refresh scenario number race-1
 	}
 	var jobs []job
 	faultKinds := []string{"err-before", "drop-before", "nil", "effect-err", "effect-drop"}
@@ -942,17 +1199,24 @@ func TestVerif_C11(t *testing.T) {
 			if c.Fronted {
 				// every history once without fault (the front itself must be transparent) and with each fault kind in turn
 				if hi%3 == 0 {
-					jobs = append(jobs, job{c, h})
+					jobs = append(jobs, job{cfg: c, h: h})
 				}
 				h.Fault = faultKinds[hi%len(faultKinds)]
-				jobs = append(jobs, job{c, h})
+				jobs = append(jobs, job{cfg: c, h: h})
 				if run.Env.Thorough() {
 					h.Fault = faultKinds[(hi+2)%len(faultKinds)]
-					jobs = append(jobs, job{c, h})
+					jobs = append(jobs, job{cfg: c, h: h})
 				}
 				continue
 			}
-			jobs = append(jobs, job{c, h})
+			jobs = append(jobs, job{cfg: c, h: h})
+		}
+	}
+	for _, c := range cfgs {
+		if c.Store == "redis" && !c.Fronted {
+			for i := 0; i < run.Env.Pick(4, 12); i++ {
+				jobs = append(jobs, job{cfg: c, race: i + 1})
+			}
 		}
 	}
 	perm := rand.New(rand.NewSource(7)).Perm(len(jobs))
@@ -961,6 +1225,10 @@ func TestVerif_C11(t *testing.T) {
 			return // the verdict is settled and the witnesses are on disk
 		}
 		j := jobs[perm[i]]
+		if j.race > 0 {
+			r.race(j.cfg, j.race-1)
+			return
+		}
 		r.one(j.cfg, j.h)
 	})
 
@@ -993,8 +1261,8 @@ func TestVerif_C11(t *testing.T) {
 		fmt.Printf("INCONCLUSIVE property=C11 reason=no DEL fault was injected / no stored session survived a failed delete: the error clause was not exercised\n")
 		t.Fail()
 	}
-	if run.Counter("replay_requests") == 0 || run.Counter("refreshes") == 0 || run.Counter("histories_host_rewritten") == 0 || run.Counter("logins_over_an_existing_session") == 0 {
-		fmt.Printf("INCONCLUSIVE property=C11 reason=no replay / no refresh / no host-rewritten history / no second login observed\n")
+	if run.Counter("replay_requests") == 0 || run.Counter("refreshes") == 0 || run.Counter("histories_host_rewritten") == 0 || run.Counter("logins_over_an_existing_session") == 0 || run.Counter("races") == 0 || run.Counter("immediate_replays_on_second_instance") == 0 {
+		fmt.Printf("INCONCLUSIVE property=C11 reason=no replay / no refresh / no host-rewritten history / no second login / no sign-out-vs-refresh race / no second-instance replay observed\n")
 		t.Fail()
 	}
 	run.Finish(int64(run.Env.Pick(1200, 9000)), run.Env.Pick(750, 1000))
